@@ -8,6 +8,7 @@ from dalimc.core.runner import new_result, add_violation, observe, sample
 from dalimc.env import gear102 as G
 
 ID = "C14"
+OPTIMISED_STRIDE = {"quick": 6, "thorough": 12}      # every k-th shard once more in an interpreter started with -O
 LEVEL = "model_checking"
 ENGINE = "E2"
 TECHNIQUE = "exhaustive enumeration of 16-bit values x selectors x destinations driving the real DT8 generators against a spec model of the DT8 Tc registers; answer faults enumerated at both query bytes"
